@@ -11,6 +11,7 @@ import live as L
 import loop_traces as LT
 import translate_rng as TR
 
+ESCALATE = True     # cheap thorough tier: run it whenever an anchor file differs from the pinned fingerprint
 RULE = ("for each of the ten optimizer classes and the six estimators: run with an integer seed, then perturb every generator "
         "(python random, numpy global, both numba streams, a complete run of a DIFFERENT optimizer with another seed), then "
         "re-run with the same integer seed and with RandomState(seed): every evaluated batch, every get_stats() series, the "
